@@ -286,6 +286,8 @@ def dyn_builtin(I4, kind, args):
 
 
 def run(ck):
+    if getattr(ck, 'depth', 0) >= 2:
+        return      # a shared run of a shared run: nothing of it is selected, and mutual sharing must end somewhere
     F = ck.facts
     L = F.lib
     set_domain(getattr(ck, 'tier', 'quick'))
@@ -307,7 +309,10 @@ def run(ck):
                       ('R5.5', 'conditions must be bool'),
                       ('R5.6', 'type and access checks dominate code emission'),
                       ('R5.7', 'the result type accounts for every return'),
-                      ('R5.8', 'constants and operands have the type their kind prescribes')):
+                      ('R5.8', 'constants and operands have the type their kind prescribes'),
+                      ('R5.9', 'operator tokens reach the operator class they denote; unsupported ones are rejected (shared with C01)'),
+                      ('R5.10', 'the void path of a body that can fall off its end takes part in the return type (shared with C06)'),
+                      ('R5.11', 'generate-ui runs the checks of non-constant bindings in both of its modes (shared with C14)')):
         ck.rule(rid, text)
 
     stubs = base_stubs()
@@ -865,3 +870,19 @@ def run(ck):
         flt = next((c for c in H.calls_in(rr['body']) if c.get('m') == 'filter_map'), None)
         ok = flt is not None and 'Terminator::Return' in pp(flt['args'][0]) and 'basic_blocks.iter()' in pp(flt['recv'])
         ck.ob('R5.7', 'every-return-collected', ok, L.loc(flt) if flt else '', 'operands = all Terminator::Return operands of all blocks')
+
+    # ---- shared obligations: places outside the type checker that decide whether its verdict is reached at all -------------------------------
+    import core as _core
+    import rules.c01 as c01
+    s1 = _core.Shared(ck, 'R5.9', lambda r, k: r == 'R1.1', 'C01:', ' [a token mapped to another operator is typed as that operator: an undocumented one is accepted]')
+    c01.run(s1)
+    ck.floor('R5.9', s1.count, 38, 'shared C01 R1.1 obligations')
+    import rules.c06 as c06
+    s6 = _core.Shared(ck, 'R5.10', lambda r, k: r == 'R6.4', 'C06:', ' [a live block wrongly marked unreachable loses its implicit `return void`, and a body with a value on one path and none on another passes the return type check]')
+    c06.run(s6)
+    ck.floor('R5.10', s6.count, 8, 'shared C06 R6.4 obligations')
+    import rules.c14 as c14
+    s14 = _core.Shared(ck, 'R5.11', lambda r, k: r == 'R14.5' and k.startswith(('cli-flag', 'generate-ui-never-omits', 'preview-uses-omit')), 'C14:',
+                       ' [Omit drops non-constant bindings without looking at them: their result type and writability are never checked]')
+    c14.run(s14)
+    ck.floor('R5.11', s14.count, 4, 'shared C14 R14.5 obligations')
